@@ -151,6 +151,11 @@ class Ctx:
     def is_local(self, obj):
         return id(obj) in self.local_ids
 
+    def begin_call(self):
+        """Everything allocated so far (module import, class bodies, harness set-up) pre-exists the call under
+        analysis: a later write to it is a persistent effect."""
+        self.local_ids = set()
+
     def effect(self, kind, target, detail=None):
         self.effects.append((kind, target, detail))
 
